@@ -589,6 +589,19 @@ class Exec(object):
                 out[label] = d
         return out
 
+    def op_view_created(self):
+        """reference attributes of the objects created in this session and not saved yet, read from
+        memory only (no look-up, hence no implicit flush)"""
+        out = {}
+        for label, obj in sorted(self.refs.items()):
+            if obj._status_ != 'created': continue
+            d = {'__class__': type(obj).__name__}
+            for a in type(obj)._attrs_:
+                if a.is_collection or not a.reverse: continue
+                d[a.name] = self.cv(obj._vals_.get(a))
+            out[label] = d
+        return out
+
     # ---- driver log helpers --------------------------------------------------------------------
     def writes(self):
         """write statements of the whole execution, one entry per row for executemany (whose row
